@@ -63,6 +63,18 @@ class Check(Property):
                             if kind_ == "base":
                                 st_["system"] = None
                             steps.append(st_)
+                    # ... a unit defined in terms of that spelling and the plural of the spelling are asked too: their memos do
+                    # not mention the spelling that is about to change its meaning
+                    if nm in ("ab", "fm", "mt") and rng.random() < 0.5:
+                        dep = "dep" + nm
+                        steps.append({"f": "define", "name": dep, "scale": "3/1", "ref": nm})
+                        for kind_ in rng.sample(["root", "dim", "base"], rng.randint(1, 3)):
+                            st_ = {"f": kind_, "u": [[dep, "1/1"]]}
+                            if kind_ == "base":
+                                st_["system"] = None
+                            steps.append(st_)
+                        if rng.random() < 0.5:
+                            steps.append({"f": "parse", "s": nm + "s"})
                 ref = rng.choice(["meter", "second", "gram"])
                 steps.append({"f": "define", "name": nm, "scale": frac_s(Fraction(rng.choice([2, 5, 17]), rng.choice([1, 10]))), "ref": ref})
             elif r < 0.74:
@@ -110,6 +122,8 @@ class Check(Property):
             out.append({"f": "parse", "s": nm + "/second"})     # compound expressions mentioning the new spelling
             out.append({"f": "parse", "s": "meter/" + nm})
             out.append({"f": "root", "u": [[nm, "1/1"]]})
+            if not nm.startswith("dep"):
+                out.append({"f": "parse", "s": nm + "s"})
         out.append({"f": "base", "u": [[rng.choice(units), "1/1"]], "system": None})
         out.append({"f": "convert", "src": [["foot", "1/1"]], "dst": [["meter", "1/1"]], "x": "1/1"})
         out.append({"f": "parse", "s": "ab"})
